@@ -346,11 +346,24 @@ def probe_after_mismatch(cases, rng):
                 k = [rng.randint(0, 3) for _ in range(cl["nparams"])]
                 follow.append([["setv", cl["cid"], k, 41]])
                 follow.append([["clearat", cl["cid"], k]])
-        for k in range(1, len(c["ops"]) + 1, max(1, len(c["ops"]) // 6)):
-            for f in follow:
+        if w["refs"]:
+            follow.append([["setref", r["rid"], r["val"] + 7] for r in w["refs"]])
+        # the elements the history itself asked for are the likeliest to be stale
+        asked = []
+        for op in c["ops"]:
+            if op[0] == "eval" and [op[1], op[2]] not in asked:
+                asked.append([op[1], op[2]])
+        # each follow-up edit is tried cold and after re-requesting what the history asked for (many stale-value
+        # defects need the value to be held at the time of the edit)
+        warm = [["eval", a[0], a[1], "call"] for a in asked][:12]
+        for k in range(1, len(c["ops"]) + 1):
+            for f in follow + [warm + f for f in follow]:
                 base = {"world": c["world"], "ops": c["ops"][:k] + f}
                 ws2 = worlds_along(base)
-                qs = queries(ws2[-1], rng, n=16)
+                live_cells = {cl["cid"]: cl for cl in ws2[-1]["cells"]}
+                qs = [["eval", a[0], a[1], "call"] for a in asked
+                      if a[0] in live_cells and len(a[1]) == live_cells[a[0]]["nparams"]][:12]
+                qs += queries(ws2[-1], rng, n=8)
                 jobs += [live_twin(base, len(base["ops"]), qs), edits_only_twin(base, len(base["ops"]), qs)]
                 meta.append(qs)
     if not jobs:
@@ -420,7 +433,10 @@ def run_exec_property(prop, tier, rng, n_quick, n_thorough, gen_kw, weights, nop
         fw.witness_result(out, prop, key, fails, (fn.__doc__ or "").split(":")[0].strip() + " -- " + text)
         out.notes.append("generator avoids the trigger of %s" % key)
     n = n_quick if tier == "quick" else n_thorough
+    gen_kw = dict(gen_kw)
+    alts = gen_kw.pop("alt", [])          # [(share, overriding knobs)]: sub-profiles mixed into the stream of cases
     g = execlib.Gen(rng, **gen_kw)
+    alt_gens = [(share, execlib.Gen(rng, **dict(gen_kw, **kw))) for share, kw in alts]
     import glob, os
     corpus = list(corpus)
     for f in sorted(glob.glob(os.path.join(fw.VERIF, "corpus", prop, "*.json"))):
@@ -429,9 +445,16 @@ def run_exec_property(prop, tier, rng, n_quick, n_thorough, gen_kw, weights, nop
             if "world" in d and "ops" in d:
                 corpus.append({"world": d["world"], "ops": d["ops"]})
     cases = list(corpus)
+    nalt = [0] * len(alt_gens)
     while len(cases) < n + len(corpus):
-        w = g.world()
-        cases.append({"world": w, "ops": execlib.gen_ops(g, w, rng.randint(*nops), weights)})
+        gg, x, acc = g, rng.random(), 0.0
+        for k, (share, ag) in enumerate(alt_gens):
+            acc += share
+            if x < acc:
+                gg = ag; nalt[k] += 1
+                break
+        w = gg.world()
+        cases.append({"world": w, "ops": execlib.gen_ops(gg, w, rng.randint(*nops), weights)})
     res = fw.run_driver("exec", cases)
     opk, outk = {}, {}
     broken = set()
@@ -468,10 +491,14 @@ def run_exec_property(prop, tier, rng, n_quick, n_thorough, gen_kw, weights, nop
     if bad and not out.p_failures:
         # the model no longer describes the code: search around the diverging histories for an input on which
         # the property itself fails (follow-up edits of every reference / input, then the edits-only differential)
-        out.p_failures += probe_after_mismatch([cases[good[b]] for b in bad[:8]], rng)
-        out.notes.append("correspondence mismatch: probed %d diverging histories with follow-up edits" % min(len(bad), 8))
+        out.p_failures += probe_after_mismatch([cases[good[b]] for b in bad[:4]], rng)
+        out.notes.append("correspondence mismatch: probed %d diverging histories with follow-up edits after every prefix" % min(len(bad), 4))
     nohyp = execlib.hypotheses(prop, [cases[i] for i in good], [res[i] for i in good])
     out.extra["cases_meeting_theorem_hypotheses"] = len(good) - len(nohyp)
+    if alt_gens:
+        out.extra["sub_profiles"] = [{"share": sh, "knobs": kw, "cases": nalt[k]} for k, (sh, kw) in enumerate(alts)]
+    nonehits = sum(1 for c, r in zip(cases, res) for op, ob in zip(c["ops"], r["obs"]) if op[0] == "eval" and ob["out"] == ["val", None] and not ob["log"])
+    out.extra["cache_hits_serving_None"] = nonehits
     out.extra["theorem_hypotheses"] = "defs_ok (no call inside try), refn_ok (by-name reads of visible references), well-formed formula edits, no formula re-entered while executing"
     out.evaluations = len(cases)
     out.traces_validated = len(good) - len(bad)
